@@ -12,7 +12,7 @@ use refimpl as r;
 use refimpl::{Mode, MODES};
 use serde_json::json;
 
-const RULE: &str = "for seeds (fixed, random, and rare seeds found by an instrumented-reference scan whose t = A*s1 + s2 wraps past q or below 0 before reduction) x sk provenance {generated, round-tripped}: get_public_key().into_bytes() must equal the generated pk bytes and the reference pk; the derived key, the generated key and try_from_bytes(pk bytes) must return the same boolean on valid signatures of all four modes (must be true: catches a wrong cached tr), on bit-flipped mutants, on signatures under another key and on wrong-context probes. Hostile accepted private keys (arbitrary tr/t0): derived pk bytes must equal the reference pkEncode(rho, Power2Round(A s1 + s2).t1). Non-trivial = distinct (seed, sk provenance) pairs whose derived key matched in bytes and in every decision.";
+const RULE: &str = "for seeds (fixed, random, and rare seeds found by an instrumented-reference scan whose t = A*s1 + s2 wraps past q or below 0 before reduction) x sk provenance {generated, round-tripped}: get_public_key().into_bytes() must equal the generated pk bytes and the reference pk; the derived key, the generated key and try_from_bytes(pk bytes) must return the same boolean on valid signatures of all four modes (must be true: catches a wrong cached tr), on bit-flipped mutants, on signatures under another key and on wrong-context probes. Hostile accepted private keys (arbitrary tr/t0; plus keys CONSTRUCTED so that t = A*s1+s2 wraps past q / below 0 exactly at coefficient 0, 1, 127, 128, 254 or 255 of the first or last polynomial): derived pk bytes must equal the reference pkEncode(rho, Power2Round(A s1 + s2).t1). Non-trivial = distinct (seed, sk provenance) pairs whose derived key matched in bytes and in every decision.";
 
 pub fn run(ctx: &Ctx) -> StageOut {
     let mut acc = Acc::new();
@@ -146,6 +146,33 @@ fn run_set<S: PS>(ctx: &Ctx) -> Acc {
                     acc.count("hostile_derived_matches_reference", 1);
                     acc.nontrivial(digest64(&[&[S::SET as u8], b"hostile", &hsk]));
                 }
+            }
+        }
+        // accepted keys constructed so that t = A*s1 + s2 wraps before reduction at a chosen coefficient
+        // (first, last and middle positions of the first and last polynomial, both directions)
+        if ji < 24 {
+            let positions = [0usize, 255, 1, 254, 127, 128];
+            let n = positions[ji % 6];
+            let k = if (ji / 6) % 2 == 0 { 0 } else { p.k - 1 };
+            let high = (ji / 12) % 2 == 0;
+            if let Some(wsk) = gen::wrap_sk(&mut g, p, k, n, high) {
+                acc.eval();
+                let want = r::pk_from_sk(p, &wsk);
+                let rp = || json!({"kind":"c11-hostile","set":S::SET,"sk":hex(&wsk),"wrap_at":[k, n],"high":high});
+                match guarded(|| S::sk_from(&wsk).map(|s| S::pk_bytes(&S::derive(&s)))) {
+                    Err(pi) => panic_violation(&mut acc, "C11", "get_public_key", "wrap-at-chosen-coefficient", &pi, rp()),
+                    Ok(Err(e)) => acc.violation(&format!("C11|sk-rejected|{}", p.name), format!("in-range private key rejected: {e} (see C10)"), rp()),
+                    Ok(Ok(b)) => {
+                        if b != want {
+                            acc.violation(&format!("C11|wrap-derived-differs|{}|n={n}", p.name), format!("derived public key differs from pkEncode(rho, t1(A s1 + s2)) for a key whose t wraps at polynomial {k} coefficient {n} ({})", if high { ">= q" } else { "< 0" }), rp());
+                        } else {
+                            acc.count("constructed_wrap_keys_match_reference", 1);
+                            acc.nontrivial(digest64(&[&[S::SET as u8], b"wrapsk", &wsk]));
+                        }
+                    }
+                }
+            } else {
+                acc.count("wrap_key_construction_failed", 1);
             }
         }
         let _ = Mode::Pure;
